@@ -147,7 +147,7 @@ def obligations(repo):
         obs.append(dict(id="C13.verify.function." + part.lower(), prop="C13", harness=VER, entry="h_function", annotate=VANN, tier="thorough",
                         defines={"VERIF_IOK": "IOK_" + part, "VERIF_IOKN": part},
                         enforce="verify_function", replace=["isa_decode", "isa_get_info"], loops=True, unwind=5, unwindset=["spec_le.0:9"], strength="U",
-                        functions=["verify_function"], timeout=3600, weight=20,
+                        functions=["verify_function"], timeout=3600, weight=20, mem_gb=40,
                         must_have=[r"verify_function\.postcondition", r"loop_invariant_step", r"decreases"],
                         min_checks=20))
     obs.append(dict(id="C13.verify.top", prop="C13", harness=VER, entry="h_verify", annotate=VANN, defines={"VERIF_VIEW_CALLER": 1},
